@@ -28,9 +28,13 @@ def gen_space(rng, want='real', maxsize=12, allow_product=False, depth=0):
             return {'k': 'power', 'n': rng.randint(1, 3),
                     'base': gen_space(rng, want, maxsize=5, allow_product=True,
                                       depth=depth + 1)}
-        return {'k': 'prod', 'parts': [
-            gen_space(rng, want, maxsize=5, allow_product=True,
-                      depth=depth + 1) for _ in range(rng.randint(1, 3))]}
+        # heterogeneous product: parts of different shape / kind but one
+        # common dtype (odl's product-space inner product needs that)
+        w2 = want if want != 'any' else rng.choice(['real', 'complex'])
+        parts = [gen_space(rng, w2, maxsize=5, allow_product=True,
+                           depth=depth + 1) for _ in range(rng.randint(1, 3))]
+        _unify_dtype(parts, 'complex128' if w2 == 'complex' else 'float64')
+        return {'k': 'prod', 'parts': parts}
     kinds = {'real': ['rn', 'rn', 'rn_w', 'rn_aw', 'tensor', 'discr', 'rn32'],
              'complex': ['cn', 'ctensor', 'cdiscr'],
              'discr': ['discr', 'discr', 'cdiscr'],
@@ -64,6 +68,21 @@ def gen_space(rng, want='real', maxsize=12, allow_product=False, depth=0):
                 'dtype': 'complex128' if k == 'cdiscr' else 'float64',
                 'nodes_on_bdry': rng.random() < 0.2}
     raise HarnessError(k)
+
+
+def _unify_dtype(parts, dtype):
+    for c in parts:
+        if c['k'] in ('power',):
+            _unify_dtype([c['base']], dtype)
+        elif c['k'] == 'prod':
+            _unify_dtype(c['parts'], dtype)
+        elif c['k'] in ('tensor', 'discr'):
+            c['dtype'] = dtype
+        elif c['k'] == 'rn':
+            c.pop('dtype', None)
+            if dtype == 'complex128':
+                c['k'] = 'cn'
+                c.pop('w', None)
 
 
 def build_space(cfg):
